@@ -67,7 +67,7 @@ def write_cfg(path, spec, constants, invariants=(), postcondition=None, extra=()
     open(path, "w").write("\n".join(lines) + "\n")
 
 
-def tlc(workdir, module, cfg, workers, timeout, simulate=None, seed=None, outfile="tlc.out"):
+def tlc(workdir, module, cfg, workers, timeout, simulate=None, seed=None, outfile="tlc.out", heap="6g"):
     meta = os.path.join(workdir, "meta_" + module)
     cmd = ["tlc", "-workers", str(workers), "-metadir", meta, "-config", cfg]
     if simulate:
@@ -79,7 +79,8 @@ def tlc(workdir, module, cfg, workers, timeout, simulate=None, seed=None, outfil
     cmd.append(module)
     outp = os.path.join(workdir, outfile)
     env = dict(os.environ)
-    env["JAVA_TOOL_OPTIONS"] = (env.get("JAVA_TOOL_OPTIONS", "") + " -Xss256m").strip()
+    # bounded heaps: 16 validation JVMs run side by side
+    env["JAVA_TOOL_OPTIONS"] = (env.get("JAVA_TOOL_OPTIONS", "") + " -Xss256m -Xmx" + heap).strip()
     with open(outp, "w") as f:
         try:
             r = subprocess.run(cmd, cwd=workdir, stdout=f, stderr=subprocess.STDOUT, timeout=timeout, env=env)
@@ -151,7 +152,7 @@ def stage1(scratch, module, constants, invariants, simulate=None, seed=0, timeou
 def stage2(scratch, exe, beh, nslots, variant=0, extra_args=()):
     trace = os.path.join(scratch, "trace.ndjson")
     t0 = time.time()
-    env = dict(os.environ, GORACE="log_path=%s halt_on_error=0" % os.path.join(scratch, "racelog"))
+    env = dict(os.environ, GORACE="log_path=%s halt_on_error=0 exitcode=0" % os.path.join(scratch, "racelog"))
     r = run([exe, "-in", beh, "-out", trace, "-slots", str(nslots), "-variant", str(variant)] + list(extra_args),
             timeout=3600, env=env)
     if r.returncode != 0:
@@ -194,7 +195,7 @@ def shard_trace(trace, scratch, nshards):
 def validate_shard(d, nevents, constants, timeout):
     copy_spec(d)
     write_cfg(os.path.join(d, "Trace.cfg"), "TSpec", constants, postcondition="TraceAccepted")
-    rc, outp = tlc(d, "Trace", "Trace.cfg", 1, timeout)
+    rc, outp = tlc(d, "Trace", "Trace.cfg", 1, timeout, heap="2g")
     mism = []
     states = 0
     accepted = False
